@@ -69,7 +69,7 @@ var flipBits = []uint{0, 1, 2, 3, 7}
 // measure allocation amplification, DESIGN section 6).
 
 var f4 = []uint32{0xFFFFFFFF, 0xFFFFFFFE, 0x80000000, 0, 1, 0x7F, 0xFF, 0x7FFF, 0xFFFF, 0x00100001}
-var p4 = []uint32{0xFFFF, 0x10000, 0xB505} // pair values: 2^16-1, 2^16, ceil(sqrt(2^31))
+var p4 = []uint32{0xFFFF, 0x10000} // pair values: 2^16-1 (product wraps negative in 32 bits), 2^16 (product wraps to 0)
 var f2 = []uint16{0xFFFF, 0xFFFE, 0x8000, 0, 1, 0x7FFF, 0x00FF, 0x0100}
 var f1 = []byte{0, 1, 2, 0x7F, 0x80, 0xFF}
 var f8 = []uint64{0, 0xFFFFFFFFFFFFFFFF, 0x8000000000000000, 0x7FFFFFFFFFFFFFFF}
